@@ -40,6 +40,7 @@ inline std::vector<uint8_t> write_art(const OP2Utility::ArtFile& a) { OP2Utility
 inline OP2Utility::ArtFile read_art(const std::vector<uint8_t>& v) {
 	uint8_t* heap = static_cast<uint8_t*>(malloc(v.size() ? v.size() : 1)); struct F { uint8_t* p; ~F() { free(p); } } g{heap};
 	if (!v.empty()) memcpy(heap, v.data(), v.size());
+	if (verif::fnv1a(v.data(), v.size()) & 1) return OP2Utility::ArtFile::Read(OP2Utility::Stream::MemoryReader(heap, v.size()));   // the overload taking a temporary stream
 	OP2Utility::Stream::MemoryReader r(heap, v.size()); return OP2Utility::ArtFile::Read(r);
 }
 
